@@ -159,7 +159,7 @@ def parse_output(out):
     return res
 
 
-def run_cases(cases, tag="res", workers=None, timeout=20):
+def run_cases(cases, tag="res", workers=None, timeout=120):
     """Run all cases (16 harness processes over shards). Returns {id: parsed result}."""
     cases = list(cases)
     if not cases:
@@ -409,7 +409,7 @@ def _keys(fails):
     return sorted(set(k for k, _ in fails))
 
 
-def drive(ctx, bounds, judge, level="exploration", engine="E4 res", rule="", assumptions=(), extra=None, timeout=30,
+def drive(ctx, bounds, judge, level="exploration", engine="E4 res", rule="", assumptions=(), extra=None, timeout=120,
           tag=None):
     """bounds: list of (name, callable -> list of Case). Each bound is run completely or not at all.
     judge(scen, result_of_its_simulation, case) -> (list of (key, what), nontrivial: False/True/hashable class, note)
